@@ -314,6 +314,7 @@ static int g_timeout = 20;
 static void child_run(void) {
   struct rlimit rl = { 0, 0 };
   setrlimit(RLIMIT_CORE, &rl);
+  setpgid(0, 0);                       /* so that the parent can reap anything this run forks */
   alarm((unsigned)g_timeout);
   void* stk = mmap(STACK_BASE, STACK_SIZE, PROT_READ | PROT_WRITE,
                    MAP_PRIVATE | MAP_ANONYMOUS | MAP_NORESERVE | MAP_FIXED_NOREPLACE, -1, 0);
@@ -347,6 +348,7 @@ static int run_one(void) {
   if (pid == 0) { child_run(); _exit(2); }
   int st = 0;
   while (waitpid(pid, &st, 0) < 0 && errno == EINTR) {}
+  kill(-pid, SIGKILL);                 /* stragglers forked by the run (uncaught-exception children) */
   if (WIFEXITED(st) && WEXITSTATUS(st) == 0 && shm->phase == 2) return 0;
   if (WIFEXITED(st) && WEXITSTATUS(st) == 10 && shm->phase == 2) return 1;
   if (WIFEXITED(st) && WEXITSTATUS(st) == 2) {
